@@ -256,9 +256,38 @@ def run_e2(res, tier, extended=True):
         text = e2.render_program(pid, c, glue=glue).replace("type AliasedResult", "type _Unused")
         text = text.replace("use vsupport::{json, Value};", "use vsupport::{json, Value};\ntype AliasedResult = StdResult<u32>;")
         cp.add(pid, text)
+    # interfaces with several associated types whose order of first use differs from their declaration order,
+    # implemented by a contract (the accessor types must line up with the generated enums' own parameters)
+    B = "sylvia::serde::Serialize + sylvia::serde::de::DeserializeOwned + std::fmt::Debug + Clone + PartialEq + sylvia::schemars::JsonSchema"
+    iface_progs = []
+    for j, order in enumerate([("set_right", "set_left", "get_both"), ("set_left", "set_right", "get_both"), ("get_both", "set_right", "set_left")]):
+        meths = {"set_right": Method("exec", "set_right", (Arg("r", "Self::RightT"),)),
+                 "set_left": Method("exec", "set_left", (Arg("l", "Option<Self::LeftT>"), Arg("m", "Self::MidT"))),
+                 "get_both": Method("query", "get_both", (Arg("x", "Self::RightT"), Arg("y", "Vec<Self::LeftT>")))}
+        i0 = Interface(name="Ifg", module="ifg", methods=tuple(meths[n] for n in order) + (Method("sudo", "poke", (Arg("z", "Self::MidT"),)),),
+                       assoc=(("LeftT", B), ("MidT", B), ("RightT", B)), custom="msg=Empty, query=Empty",
+                       assoc_impl=(("LeftT", "u32"), ("MidT", "bool"), ("RightT", "String")))
+        c = Contract(methods=(Method("instantiate", "inst", ()), Method("exec", "own", ())), interfaces=(i0,), entry_points="")
+        pid = "pgi%d" % j
+        iface_progs.append((pid, c, i0))
+        cp.add(pid, e2.render_program(pid, c, glue=e2.subject_impl(e2.basic_glue(c, None))))
     cp.write()
     cp.build()
     cases, exp = [], []
+    conc_i = {"Self::LeftT": "u32", "Self::MidT": "bool", "Self::RightT": "String"}
+    for pid, c, i0 in iface_progs:
+        if pid in cp.failed:
+            res.violation({"kind": "compile", "cls": "generic_program_rejected", "pid": pid, "diags": cp.failed[pid][:3],
+                           "what": "%s: interface with three associated types (methods declared in the order %s) implemented by a contract does not compile: %s" % (
+                               pid, [m.name for m in i0.methods], cp.failed[pid][0]["message"])})
+            continue
+        for m in i0.methods:
+            cm = Method(m.kind, m.name, tuple(Arg(a.name, subst(a.ty, conc_i).replace("Self::", "")) for a in m.args))
+            cm = Method(m.kind, m.name, tuple(Arg(a.name, a.ty.replace("Self::LeftT", "u32").replace("Self::MidT", "bool").replace("Self::RightT", "String")) for a in m.args))
+            tup = tuple(compose_value(a.ty) for a in cm.args)
+            d = fam_basic.doc(cm, tup)
+            cases.append({"prog": pid, "op": "dispatch", "kind": m.kind, "part": "wrapper", "input": d, "ctx": fam_basic.CONTEXTS[1]})
+            exp.append((pid, Method(cm.kind, cm.name, cm.args), tup, d))
     for pid, c, params, used, conc in progs:
         if pid in cp.failed:
             res.violation({"kind": "compile", "cls": "generic_program_rejected", "pid": pid, "diags": cp.failed[pid][:3], "codes": sorted(set(d["code"] for d in cp.failed[pid] if d.get("code"))),
@@ -310,7 +339,7 @@ def run_e2(res, tier, extended=True):
                 continue
             continue
         got = json.loads([a for a in o["resp"]["attributes"] if a["key"] == "echo"][0]["value"])
-        want = fam_basic.expected_echo("Ct", cm, tup, fam_basic.CONTEXTS[1])
+        want = fam_basic.expected_echo("Ifg" if pid.startswith("pgi") else "Ct", cm, tup, fam_basic.CONTEXTS[1])
         if got != want:
             res.violation({"kind": "behaviour", "cls": "generic_echo", "pid": pid, "doc": d, "what": "%s: echo %s differs from model %s" % (pid, got, want)})
     res.parts["e2_programs"] = len(progs)
